@@ -224,6 +224,27 @@ def run(ctx):
         gen_ok = True
         req_model += "From PqGen Require Import GenFilter.\n"
         extra_q = [(ctx.gen_dir, "PqGen")]
+        # -------- tie 1b: the row-group LOOP filter_out_stats regenerated (for-loops with early return over thrift objects,
+        # Base/PyObj.v) and proved to refine the hand model Impl/Filter.filter_out_stats (Impl/FilterLoop.v abstraction);
+        # fail closed -> the hand model + row-group correspondence carry the tie (translator_fallback_loop)
+        try:
+            ltext = py2coq.translate(src, ["filter_out_stats"], loops=True, known=["filter_val"])
+            open(os.path.join(ctx.gen_dir, "GenFilterLoop.v"), "w").write(ltext)
+            ok, out = C.coqc(os.path.join(ctx.gen_dir, "GenFilterLoop.v"), extra_q=[(ctx.gen_dir, "PqGen")])
+            if not ok:
+                raise py2coq.Unsupported("generated loop text does not type-check: " + out[-400:])
+            lp = open(os.path.join(C.COQ, "genproofs", "GenFilterLoopProofs.v")).read()
+            if quick:
+                # the fully general refinement (memoised bounds, converted types) takes ~35 s more: thorough tier
+                a, b = lp.index("(* ---- THOROUGH ONLY ---- *)"), lp.index("End Loop.")
+                lp = lp[:a] + lp[b:]
+            lproofs = os.path.join(ctx.gen_dir, "GenFilterLoopProofs.v")
+            open(lproofs, "w").write(lp)
+            ctx.coq_file(lproofs, extra_q=[(ctx.gen_dir, "PqGen")], obligations=["gen:loop:" + n for n in C.theorem_names(lproofs)])
+            ctx.extra["translator"]["loop"] = {"status": "ok", "functions": ["filter_out_stats"], "external_calls": sorted(set(re.findall(r'\(ext "([^"]+)"', ltext)))}
+        except py2coq.Unsupported as e:
+            ctx.extra["translator"]["loop"] = {"status": "translator_fallback_loop", "reason": str(e)[:500]}
+            ctx.notes.append("translator_fallback_loop: " + str(e)[:300])
     except py2coq.Unsupported as e:
         # fail closed: hand model (committed copy) + correspondence carry the tie
         ctx.extra["translator"] = {"status": "translator_fallback", "reason": str(e)[:500]}
